@@ -33,6 +33,8 @@ def check(ctx, R):
         R.count("LOCK-with[%s]" % roles.tag, n, 9)
         from ..locks import rule_lock_objects
         rule_lock_objects(ctx, R, roles, li)
+        from ..locks import rule_order
+        rule_order(ctx, R, roles, li)      # a fault handler that re-enters a non-reentrant lock never returns: the lock stays held and close() blocks
         from .c11 import loop_rules
         from ..engine import terms as _terms
         loop_rules(ctx, R, roles, _terms(ctx))       # a loop that can spin for ever (under a lock) makes close() block
